@@ -10,6 +10,7 @@ Not decided: termination, closest-set condition, parallelism bound, ordering (va
 import re
 from paths import refine_cuts, region_uncovered
 from common import short, field_calls
+import guards
 
 EXPLANATION = ("Structural necessary conditions of lookup termination: terminal actions are produced only together with the removal of the "
                "query (exactly-one terminal result), dispatch tables over the query kinds are total and agree with the method they forward, "
@@ -116,13 +117,15 @@ def r15_3(ctx, fx):
         tests = []
         for rx, fld, nm in ((r"HashSet::contains$", "queried", "queried"), (r"HashMap::contains_key$", "pending", "pending"), (r"PartialEq.*::eq$", "local_peer_id", "local")):
             cs = [c for c in fn.calls(rx) if fld in fn.recv(c) or any(fld in fn.origin(a) for a in c.args)]
+            # ... and the thing tested is the closure's own argument (the candidate), not a captured outer binding
+            cs = [c for c in cs if any(any(x.startswith("param:_2") for x in guards.rootstrs(fn, a)) for a in c.args)]
             ok = False
             for c in cs:
                 for sw, t, f in fn.bool_tests(c.dest[0]):
                     if somes and all(fn.only_via(s, sw, [f]) for s in somes):
                         ok = True
             ctx.ob("R15.3", "%s/Some-only-if-not-%s" % (short(key), nm), ok, site=fn.site(fn.entry), cfg=fx.cfg,
-                   detail="filter must return Some(peer) only over the false edge of the %s test (tests found: %d, Some sites: %d)" % (nm, len(cs), len(somes)))
+                   detail="filter must return Some(candidate) only over the false edge of the %s test applied to the candidate itself (such tests found: %d, Some sites: %d)" % (nm, len(cs), len(somes)))
     ctx.anchor("R15.3", "candidate filter closures", n, 3, cfg=fx.cfg)
 
 
